@@ -1053,7 +1053,7 @@ func (c *Ctx) ghostRead(g *GhostDecl, args []*Val, env *Env) *Val {
 			st = env.old
 		}
 		name := "G|" + g.Name
-		c.registerMap(name, "(Array Int "+c.scalarSort(rt)+")")
+		c.registerMap(name, c.ghostMapSort(g))
 		key := "0"
 		if len(terms) >= 1 {
 			key = terms[0]
